@@ -245,6 +245,18 @@ func c01run(sc *c01scn, s *vt.Sink) error {
 	if len(streams) != nk+1 {
 		return fmt.Errorf("c01: %d streams in the description, expected %d", len(streams)-1, nk)
 	}
+	if sc.TLS && anyLate {
+		// the additional formats of a media start far from the wrap: when a late reader joins, the
+		// formats of one media (one SRTP context, one MIKEY message) have DIFFERENT roll-over
+		// counters - the first format has wrapped, the others have not
+		firstOf := map[int]bool{}
+		for k := 1; k <= nk; k++ {
+			if firstOf[streams[k].m] {
+				spec.Seq0[k] = uint16(1000 + 37*k)
+			}
+			firstOf[streams[k].m] = true
+		}
+	}
 	pts := make([]uint8, nk+1)
 	for k := 1; k <= nk; k++ {
 		pts[k] = streams[k].pt
@@ -313,7 +325,7 @@ func c01run(sc *c01scn, s *vt.Sink) error {
 				// gets past its wrap here, before the SETUPs
 				wrapped := func() bool {
 					for k := 1; k <= nk; k++ {
-						if int(spec.Seq0[k])+begun[k] <= 65536 {
+						if spec.Seq0[k] > 60000 && int(spec.Seq0[k])+begun[k] <= 65536 {
 							return false
 						}
 					}
